@@ -1,10 +1,25 @@
 use crate::util::{Ctx, Report};
 
+pub mod c03;
+pub mod c05;
+pub mod c07;
+pub mod c13;
+pub mod c14;
 pub mod c15;
+pub mod c17;
+pub mod c19;
 pub mod c16;
 
 pub fn run(id: &str, ctx: &Ctx) -> Report {
     match id {
+        "C03" => c03::run(ctx),
+        "C04" => c03::run_c04(ctx),
+        "C05" => c05::run(ctx),
+        "C07" => c07::run(ctx),
+        "C17" => c17::run(ctx),
+        "C19" => c19::run(ctx),
+        "C13" => c13::run(ctx),
+        "C14" => c14::run(ctx),
         "C15" => c15::run(ctx),
         "C16" => c16::run(ctx),
         _ => {
